@@ -25,6 +25,31 @@ pub fn feature_counts(st: &mut Stats, r: &Rendered) {
     }
 }
 
+/// which of the rarer shapes a line has (coverage counters)
+pub fn shape_counts(st: &mut Stats, c: &CmdSpec, li: &LevelIntent) {
+    let mut poss: Vec<usize> = (0..c.args.len()).filter(|i| c.args[*i].is_positional()).collect();
+    let declared = poss.clone();
+    poss.sort_by_key(|i| c.args[*i].index.unwrap_or(0));
+    if poss != declared {
+        st.count("shape.positionals-declared-out-of-index-order");
+    }
+    let given: Vec<usize> = li.items.iter().filter_map(|it| if let Item::Pos { arg, .. } = it { Some(*arg) } else { None }).collect();
+    if let Some(lp) = poss.last() {
+        if c.args[*lp].last && given.contains(lp) && poss.iter().any(|p| !given.contains(p)) {
+            st.count("shape.last-positional-after-omitted-one");
+            if poss != declared {
+                st.count("shape.last-positional-after-omitted-one.out-of-index-order");
+            }
+        }
+    }
+    if li.items.len() > 20 {
+        st.count("shape.more-than-20-items");
+    }
+    if let Some((si, child)) = &li.sub {
+        shape_counts(st, &c.subs[*si], child);
+    }
+}
+
 /// one spec, several intents x spellings
 pub fn run(st: &mut Stats, rng: &mut Rng, o: &ConvOpts, io: &IntentOpts, prefix: &str) {
     let spec = conv_cmd(rng, o);
@@ -42,6 +67,7 @@ pub fn run(st: &mut Stats, rng: &mut Rng, o: &ConvOpts, io: &IntentOpts, prefix:
         let intent = gen_intent(rng, &spec, io);
         let style = if k == 0 { Style::canonical() } else { Style::random(rng) };
         let r = render(rng, &spec, &intent, &style);
+        shape_counts(st, &spec, &intent);
         st.eval();
         if r.argv.len() > 1 {
             st.nontrivial(mix(hash_str(&format!("{:?}", spec)), hash_str(&show_argv(&r.argv))));
@@ -79,6 +105,7 @@ pub fn case(seed: u64, st: &mut Stats) {
     let mut rng = Rng::new(seed);
     let mut o = ConvOpts::full();
     o.hyphen_pos = true;
+    o.explicit_index = true;
     let io = IntentOpts::default();
     run(st, &mut rng, &o, &io, "c02");
 }
